@@ -104,6 +104,8 @@ Proof.
     apply bind_ok in Ek as (cr2 & En & E2). injection E2 as <-. destruct Hin as [<-|[]]. eapply Hn; eauto.
   - destruct (_ && _ && _); [intros [= <-]; apply trivially_good|]. apply bind_reported.
   - destruct (negb closed); [intros [= <-]; apply trivially_good|]. apply bind_reported'.
+  - intros [= <-]. apply reported_good.
+  - destruct (cc_val cc); [intros [= <-]; apply reported_good|apply bind_reported].
 Qed.
 
 (* the constraint loop of a nested evaluation keeps `non_conformant <-> some report` *)
